@@ -380,7 +380,8 @@ pub fn run(ctx: &Ctx) -> Report {
         let ks: Vec<i64> = vec![-1, 0, 1, 4, 5, 100];
         let r = par_cases(ctx, "C19", "fragment-cut", ks.len() as u64, |_rng, i, rep| {
             let mut text = Vec::new();
-            stream_fill(&mut text, ctx.seed, 9, MAXP + 50, true);
+            // the second fragment carries 501 payload bytes, so every offset below lies inside the command
+            stream_fill(&mut text, ctx.seed, 9, MAXP + 500, true);
             let mut case = Case::new(vec![Cmd::query(&text)], vec![Script::Q(QProg::completed(1, 1))]);
             let (input, ends) = case.input();
             // offset of the second fragment's header
@@ -393,7 +394,7 @@ pub fn run(ctx: &Ctx) -> Report {
             rep.evaluations += 1;
             rep.counters.inc("eof_cuts");
             rep.counters.class("16 MiB command: eof between / inside fragments".into());
-            let d = || J::obj().set("fault", format!("end of stream {} bytes relative to the second fragment's header of a {}-byte command (input {} bytes)", ks[i as usize], MAXP + 51, input.len())).set("outcome", obs.outcome.describe());
+            let d = || J::obj().set("fault", format!("end of stream {} bytes relative to the second fragment's header of a {}-byte command (input {} bytes)", ks[i as usize], MAXP + 501, input.len())).set("outcome", obs.outcome.describe());
             if !obs.outcome.is_err() {
                 rep.violations.push(viol("C19", "C19 eof-masked between fragments".into(), format!("stream cut between the fragments of a multi-packet command, run_on returned {}", obs.outcome.describe()), d()));
             } else if !obs.log.cbs.iter().all(|c| matches!(c.kind, CbKind::Auth { .. })) {
